@@ -62,9 +62,68 @@ def utf8_text(rng, n):
     return bytes(out)
 
 
+_NOVEL = None
+
+
+def _literal_counts(root):
+    import collections, glob, os, re
+    out = {}
+    for f in sorted(glob.glob(os.path.join(root, "src", "**", "*.rs"), recursive=True)):
+        try:
+            t = re.sub(r"//[^\n]*", "", open(f).read())
+        except OSError:
+            continue
+        c = collections.Counter()
+        for m in re.finditer(r"(?<![A-Za-z_0-9.])(0x[0-9a-fA-F_]+|[0-9][0-9_]*)(?:usize|u8|u16|u32|u64|i32|i8|i64)?(?![A-Za-z0-9.])", t):
+            x = m.group(1).replace("_", "")
+            try:
+                c[int(x, 16) if x.startswith("0x") else int(x)] += 1
+            except ValueError:
+                pass
+        out[os.path.relpath(f, root)] = {str(k): v for k, v in c.items()}
+    return out
+
+
+def novel_literals():
+    """Integer literals (2..70000) that some file of /repo/src mentions more often now than at the pinned commit
+    (lib/literals_baseline.json: occurrences per file): the thresholds, limits and identifiers a change brought in.  Empty on the
+    unchanged tree, where nothing below changes.  Used only to aim the search for a failing input (lengths and integers at n-1, n,
+    n+1 for each of them); the verdict never rests on it."""
+    global _NOVEL
+    if _NOVEL is not None:
+        return _NOVEL
+    import json, os
+    from . import core
+    try:
+        base = json.load(open(os.path.join(os.path.dirname(os.path.abspath(__file__)), "literals_baseline.json")))
+    except OSError:
+        _NOVEL = []
+        return _NOVEL
+    found = set()
+    for f, c in _literal_counts(core.REPO).items():
+        b = base.get(f, {})
+        for k, v in c.items():
+            if v > b.get(k, 0):
+                found.add(int(k))
+    _NOVEL = sorted(v for v in found if 2 <= v <= 70000)
+    return _NOVEL
+
+
+def novel_sizes(limit=None):
+    out = []
+    for v in novel_literals():
+        for d in (-1, 0, 1):
+            if v + d >= 0 and (limit is None or v + d <= limit) and v + d not in out:
+                out.append(v + d)
+    return out
+
+
 def pick_len(rng, cap, focus=False):
     if cap <= 0:
         return 0
+    nv = novel_sizes(cap)
+    if nv and rng.chance(1, 4):
+        return rng.choice(nv)
     if focus:
         return rng.choice([0, 1, max(0, cap - 1), cap])
     r = rng.below(10)
@@ -98,6 +157,9 @@ def gen_bytes(rng, n):
 
 
 def pick_int(rng, maxv, focus=False):
+    nv = novel_sizes(maxv)
+    if nv and rng.chance(1, 4):
+        return rng.choice(nv)
     if rng.chance(1, 4):
         ds = [e for e in INT_DEFAULTS if e <= maxv]
         if ds:
